@@ -14,6 +14,7 @@ package main
 import (
 	"fmt"
 	"math"
+	"sort"
 	"strings"
 
 	"grol.io/grol/eval"
@@ -222,7 +223,7 @@ func cmpGen(tier string, r *rng, emit func(string)) {
 	// random nested values
 	var atoms []string
 	for _, v := range u {
-		if isPlainData(v) && len(v) < 40 {
+		if isPlainData(v) && len(v) < 24 {
 			atoms = append(atoms, v)
 		}
 	}
@@ -232,7 +233,7 @@ func cmpGen(tier string, r *rng, emit func(string)) {
 	}
 	pool := make([]string, 0, npool)
 	for len(pool) < npool {
-		pool = append(pool, cmpRandomValue(r, atoms, 3))
+		pool = append(pool, cmpRandomValue(r, atoms, 2+r.intn(2)))
 	}
 	for _, v := range pool {
 		emit("V|" + v)
@@ -271,6 +272,29 @@ func cmpGen(tier string, r *rng, emit func(string)) {
 		}
 	}
 	all := append(append([]string{}, u...), pool...)
+	// neighbours in the implementation's own order: all triples inside every window of 4 adjacent
+	// values (equal and nearly equal values meet here far more often than in random triples)
+	var sorted []string
+	for _, v := range all {
+		if isPlainData(v) {
+			sorted = append(sorted, v)
+		}
+	}
+	objs := map[string]object.Object{}
+	for _, v := range sorted {
+		objs[v] = buildWire(v)
+	}
+	sort.SliceStable(sorted, func(i, j int) bool { return object.Cmp(objs[sorted[i]], objs[sorted[j]]) < 0 })
+	for i := 0; i+4 <= len(sorted); i++ {
+		w := sorted[i : i+4]
+		for _, a := range w {
+			for _, b := range w {
+				for _, c := range w {
+					triple(a, b, c)
+				}
+			}
+		}
+	}
 	nrand := 20000
 	if thorough {
 		nrand = 300000
